@@ -104,7 +104,12 @@ def keyV (k : Key) : Key :=
 def haLeaf (div : Nat → Rat) : Sem := fun a => do
   let votes ← toVotes a.votes
   let prev ← toNatMap (a.prev.getD (.dict []))
-  let caps ← toNatMap (a.max.getD (.dict []))
+  -- `max_seats` is only ever consulted as `max_seats.get(cand, n_seats)` for the candidates of the votes:
+  -- entries under other keys (e.g. a per-constituency table handed through) are never looked at
+  let capsV ← (a.max.getD (.dict [])).items
+  let caps ← toNatMap (.dict (capsV.filter (fun p => match p.1 with
+    | .cand c => votes.any (fun q => q.1 = c)
+    | .tie _ => false)))
   let n ← match a.n with
     | some .none =>
         -- n_seats=None (a district missing from the apportionment): L436-442 compare
@@ -216,10 +221,12 @@ def toCandList (v : V) : Except Err (List Cand) :=
   | _ => throw eType
 
 /-- ThresholdOpenList.evaluate(votes, n_seats, candidate_list) -/
-def thresholdOpenListLeaf (cfg : OpenListCfg) : ListSem := fun pv k lst => do
+def thresholdOpenListLeaf (cfg : OpenListCfg) (zeroBad : Bool) : ListSem := fun pv k lst => do
   let votes ← toVotes pv
   let n ← k.asNat
   let cl ← toCandList lst
+  -- a party listed with zero seats (previous gains only): `Fraction(total, 0)` in the Hare quota
+  if zeroBad && n = 0 then throw eZeroDiv
   let r ← thresholdOpenList cfg votes n cl
   pure (.list (r.map V.cand))
 
